@@ -164,11 +164,22 @@ def run(ctx):
               "parse_formula uses (and caches) one grammar per table", f"grammars built for {len(built)} tables; served {r1[0]}, {r2[0]}",
               fsite(ctx, "formulas.parse_formula"))
     # the grammar's symbol lookups use the table it was built for
-    g = ctx.src.func("formulas.formula_grammar")
-    uses = [n for n in ast.walk(g.node) if isinstance(n, ast.Attribute) and isinstance(n.value, ast.Name) and n.value.id == "table"]
-    glob = [n for n in ast.walk(g.node) if isinstance(n, ast.Name) and n.id in ("PUBLIC_TABLE", "default_table", "elements")]
-    ctx.check(uses and not glob, "R4", "formula_grammar resolves symbols only through its table parameter", f"global table used: {[ast.unparse(x) for x in glob]}",
-              fsite(ctx, "formulas.formula_grammar"))
+    # (decided on the grammar model: a string parsed with the grammar built for T yields T's own atom objects, while the
+    # public table is a different object)
+    w3 = world(ctx)
+    I3 = w3.I
+    I3.module_cache[("core", "PUBLIC_TABLE")] = I3.new_obj("other_public_table", None, {}, open_attrs=set())
+    rr3 = raises(lambda: I3.call(I3.global_name("formulas", "parse_formula"), ["Fe2O3"], {"table": w3.table}))
+    if rr3 is not None:
+        ctx.fail("R4", "formula_grammar resolves symbols only through its table parameter", f"parsing with table=T raises {rr3}",
+                 fsite(ctx, "formulas.formula_grammar"))
+    else:
+        parsed3 = I3.call(I3.global_name("formulas", "parse_formula"), ["Fe2O3"], {"table": w3.table})
+        own = set(map(id, (w3.element("Fe"), w3.element("O"))))
+        got3 = I3.getattr(parsed3, "atoms")
+        ctx.check(isinstance(got3, dict) and set(map(id, got3)) == own, "R4", "formula_grammar resolves symbols only through its table parameter",
+                  f"atoms {sorted(map(repr, got3)) if isinstance(got3, dict) else got3} are not the atoms of the table the grammar was built for",
+                  fsite(ctx, "formulas.formula_grammar"))
     # the sequence prefix route
     f = ctx.src.func("formulas.formula")
     seq_calls = [n for n in ast.walk(f.node) if isinstance(n, ast.Call) and ast.unparse(n.func).endswith("Sequence")]
